@@ -21,6 +21,12 @@ CHECKS = {
          "(b) every ParseError token the tokenizer emits from each C02 catalogue pre-state on any continuation of <= 2/3 Unicode characters has a code in E whose template variables are supplied. (c) 10 conforming skeletons (incl. foreign content with mixed-case names) x symbolic text record no error in strict mode. (d) concrete lemma: E's templates format; all literal error sites in the AST use known codes and supply the template's variables.",
     note="Element names by symbolic index over a finite source-derived list (the parser compares names only with such constants); after the fork the run is concrete. Lemma (d) is not a solver result. " + NOTE_COMMON,
     design="§3 C16"),
+ "C03": dict(
+    technique="bounded symbolic execution (CrossHair/z3): the real parser on catalogue contexts + tokens chosen by symbolic index (both builders x namespacing, scripting symbolic), deep-nesting documents with symbolic depth/closer choice, numeric character references with an unbounded symbolic value",
+    text="For every second (quick) / every (thorough) of 73 tree-construction contexts (documents and fragments in 23 containers) and every token out of 4 tag shapes x ~140 source-derived names + 13 other tokens [thorough: + a second tag over 24 names]: parse()/parseFragment() raise nothing with etree and dom, namespacing on/off, scripting on/off, and every document result has the skeleton doctype?/comments + one html with head then body|frameset and no stray text. "
+         "Deep nesting: '<div>' + 0/1100/2200 copies of each of 20 element names + 7 closers parse without RecursionError. Numeric references: consumeNumberEntity never raises for any non-negative integer (unbounded). Tokenizer termination rides on C02's obligations (iteration guard).",
+    note="Names/tokens by symbolic index over finite lists, run concretely after the fork; inputs outside 'context + <= 2 tokens' and byte inputs are outside the claim; noframes after frameset under html is a listed known finding (standard behaviour). " + NOTE_COMMON,
+    design="§3 C03"),
  "C02": dict(
     technique="bounded symbolic execution (CrossHair/z3) of the real tokenizer state methods from catalogue pre-states on a symbolic continuation of arbitrary Unicode characters, differentially against an independent transcription of the WHATWG tokenizer (R1)",
     text="For every state method of the live HTMLTokenizer class (catalogue rebuilt from /repo at check time: 119 pre-states over 7 configurations = 5 start states x last start tag x CDATA allowed/not) the real tokenizer is run from that pre-state on EVERY string of <= 2 (quick) / 3 (thorough) Unicode characters followed by end of input, "
